@@ -56,7 +56,9 @@ CLAIMED = {'C01': {'text': 'Decides, for every public psutil.Process/Popen metho
                  'every sleep when a timeout is given and TimeoutExpired(timeout, pid) is raised '
                  'only under clock >= deadline; the poll interval is 1e-4 .. 0.04 by induction on '
                  "its only update; WIFEXITED/WIFSIGNALED decoding; wait_procs' gone/alive "
-                 'bookkeeping. How late a poll fires is a timing fact and is not decided.',
+                 'bookkeeping. How late a poll fires is a timing fact and is not decided. Also: on '
+                 'Windows one deadline covers the native wait and the PID-lingering poll (no path '
+                 'from the native wait to a store of the deadline).',
          'note': 'Trusted: CFG/dominators; sign-domain evaluation of guard predicates; monotonic '
                  'clock.',
          'technique': 'CFG dominance, path queries, interval induction'},
@@ -168,7 +170,9 @@ CLAIMED = {'C01': {'text': 'Decides, for every public psutil.Process/Popen metho
                  'order of both smaps parsers and the roll-up fallback handler, line-anchoring of '
                  'the smaps regexes, the memory_maps tuple against the named-tuple fields and '
                  'smaps keys (bounded header split, [anon]), the grouping slots and tuple '
-                 "compatibility on every platform, and memory_percent's validation order and form.",
+                 "compatibility on every platform, and memory_percent's validation order and form. "
+                 'Also: a block generator that emits one mapping behind its input yields once more '
+                 'after its loop (the last mapping is listed).',
          'note': 'Trusted: proc(5) statm/smaps tables; interpreter subset.',
          'technique': 'abstract interpretation (provenance, forms), regex-literal analysis, table '
                       'agreement'},
@@ -177,7 +181,8 @@ CLAIMED = {'C01': {'text': 'Decides, for every public psutil.Process/Popen metho
                  'the finite domain, the regular-file/absolute-path filter as control dependence '
                  'of the append, the errno skip policy, provenance of position/flags(base '
                  '8)/fd/path, num_fds, and the /proc/<pid>/io key table with its tolerance of '
-                 "blank/malformed lines. Descriptors closing mid-scan are C03's.",
+                 "blank/malformed lines. Descriptors closing mid-scan are C03's. Also: a blank or "
+                 'malformed /proc/<pid>/io line neither ends the scan (break/return) nor fails it.',
          'note': 'Trusted: os.O_* values for Linux (table in absint.OS_CONSTS), fdinfo layout.',
          'technique': 'finite-domain exhaustiveness, abstract interpretation, control dependence'},
  'C11': {'text': 'Decides agreement of the Linux kind table with _common.conn_tmap (11 kinds, '
@@ -185,7 +190,9 @@ CLAIMED = {'C01': {'text': 'Decides, for every public psutil.Process/Popen metho
                  '/proc/net column of every slot (laddr 1, raddr 2, state 3, inode 9; unix type 4, '
                  'inode 6, path 7 through a bounded split; header skipped; port hexadecimal; port '
                  '0 -> ()), the TCP state table, NONE for non-stream, owner/filter structure and '
-                 'the pconn/sconn slot order. Hex/endianness address decoding is not decided.',
+                 'the pconn/sconn slot order. Hex/endianness address decoding is not decided. '
+                 'Also: the shared record builder of the other platforms chooses sconn/pconn by '
+                 '`pid is None`, so a socket held by PID 0 keeps its owner.',
          'note': 'Trusted: /proc/net layouts and tcp_states.h (oracle tables); interpreter subset.',
          'technique': 'table agreement, CFG dominance, abstract interpretation (provenance)'},
  'C12': {'text': "Decides only structural necessary conditions: os.readlink's single call site and "
@@ -193,7 +200,9 @@ CLAIMED = {'C01': {'text': 'Decides, for every public psutil.Process/Popen metho
                  "choice / trailing-separator removal / zombie check, parse_environ_block's "
                  "stop-and-progress rule and its '=' test, the guards of the name() extension and "
                  'of the exe() guess, single-writer of the exe cache. Separator heuristics on real '
-                 'argv data and byte decoding are value-level and not decided.',
+                 'argv data and byte decoding are value-level and not decided. Also: name() '
+                 'absorbs AccessDenied and ZombieProcess from the cmdline() it consults, answering '
+                 "with the kernel's name.",
          'note': 'Trusted: TASK_COMM_LEN = 16; interpreter subset.',
          'technique': 'who-may-call, abstract interpretation, loop-progress rule, control '
                       'dependence'},
@@ -225,7 +234,8 @@ CLAIMED = {'C01': {'text': 'Decides, for every public psutil.Process/Popen metho
                  'unpack use the same shift and mask and that the affinity sizing loop frees '
                  "before re-allocating and doubles only under the overflow guard. 'Every other "
                  "process unchanged' and the kernel's own behaviour are run-time facts and not "
-                 'decided.',
+                 'decided. Also: CPU lists with duplicates select the same CPUs (the front end '
+                 'de-duplicates, or no platform mask is built additively).',
          'note': 'Trusted: Python ast / clang AST, the constant evaluator for guard predicates, '
                  'native name table.',
          'technique': 'CFG dominance, predicate evaluation, AST constant agreement across C '
@@ -235,7 +245,10 @@ CLAIMED = {'C01': {'text': 'Decides, for every public psutil.Process/Popen metho
                  'the Fahrenheit form, per-entry OSError tolerance of reading-file reads, '
                  'threshold back-fill, battery percent/secsleft forms and the '
                  'UNLIMITED/UNKNOWN/None conventions, cpu_freq mean, cpu_count < 1 -> None. '
-                 'Directory layouts of real hardware are not exercised.',
+                 'Directory layouts of real hardware are not exercised. Also: nothing '
+                 'appended/yielded inside a per-sensor or per-CPU loop (Linux sensors, cpu_freq() '
+                 "on every platform) can still hold the previous iteration's value; cpufreq "
+                 'directories are ordered by CPU number.',
          'note': 'Trusted: sysfs ABI units by file suffix; interpreter subset.',
          'technique': 'abstract interpretation (units with loop fixed point, forms), handler '
                       'inventory'},
@@ -247,7 +260,9 @@ CLAIMED = {'C01': {'text': 'Decides, for every public psutil.Process/Popen metho
                  'decorators applied to functions; documented named tuple per method; one-shot map '
                  '<-> C Py_BuildValue slot agreement per #if configuration through a role table; '
                  'no discarded pure-call results in the front end; documentation Availability vs. '
-                 'the platform evaluator. Non-Linux C is read textually only.',
+                 'the platform evaluator. Non-Linux C is read textually only. Also: '
+                 'NoSuchProcess/AccessDenied are built with (pid, name[, message]) everywhere in '
+                 'the platform modules - only ZombieProcess takes a ppid.',
          'note': 'Trusted: translator matrix / role tables in sa/oracles/platforms.py; '
                  "errno<->class mapping; the text extractor's #if evaluator; natives taking the "
                  'pid may raise ESRCH/EPERM/EACCES.',
